@@ -160,10 +160,49 @@ package server
 //@   ensures ret0 ==> spos(stream) == old(spos(stream)) + vw(sel(sdata(stream), old(spos(stream))))
 //@   modifies streamReads, tcpSpawns, rpos
 
-//@ func (*h3sHandler).handleTCPRequest
-//@   props C01
+// One proxied TCP connection (C01, C06): the target is dialled once; without a hook the client is
+// answered exactly once, after the dial, with the dial's outcome (and its error text); nothing is
+// relayed, and no replay bytes are written, unless the dial succeeded; replay bytes handed back
+// by the hook are written to the target before relaying starts.
+//@ ghost var tcpDials Int
+//@ ghost var tcpDialOK Bool
+//@ ghost var tcpPuts Int
+//@ ghost var tcpResps Int
+//@ hook after call Outbound.TCP(o, a) (c, err) in (*h3sHandler).handleTCPRequest
+//@   update tcpDials = tcpDials + 1
+//@   update tcpDialOK = isnil(err)
+//@ guard call Outbound.TCP(o, a) in (*h3sHandler).handleTCPRequest
+//@   props C06 C01
+//@   requires tcpDials == old(tcpDials) && a == reqAddr
+//@ hook call protocol.WriteTCPResponse(w, ok, msg) in (*h3sHandler).handleTCPRequest
+//@   update tcpResps = tcpResps + 1
+//@ guard call protocol.WriteTCPResponse(w, ok, msg) in (*h3sHandler).handleTCPRequest
+//@   props C06
+//@   requires payload(w) == stream && tcpResps == old(tcpResps) && ((tcpDials == old(tcpDials) && hooked && ok) || (tcpDials == old(tcpDials) + 1 && !hooked && ok == tcpDialOK))
+//@ hook call Conn.Write(c, b) in (*h3sHandler).handleTCPRequest
+//@   update tcpPuts = tcpPuts + 1
+//@ guard call Conn.Write(c, b) in (*h3sHandler).handleTCPRequest
+//@   props C06 C17
+//@   requires tcpDials == old(tcpDials) + 1 && tcpDialOK && c == tConn && b == putback && tcpPuts == old(tcpPuts)
+//@ guard call copyTwoWayEx(id, a, b, l, st) in (*h3sHandler).handleTCPRequest
+//@   props C06 C01
+//@   requires tcpDials == old(tcpDials) + 1 && tcpDialOK && (len(putback) == 0 || tcpPuts == old(tcpPuts) + 1) && id == h.authID && b == tConn
+//@ guard call copyTwoWay(a, b) in (*h3sHandler).handleTCPRequest
+//@   props C06 C01
+//@   requires tcpDials == old(tcpDials) + 1 && tcpDialOK && (len(putback) == 0 || tcpPuts == old(tcpPuts) + 1) && b == tConn && isnil(trafficLogger)
+//@ func copyTwoWayEx
+//@   props C06
 //@   trusted
-//@   requires h.authenticated
+//@   modifies anybut(tcpDials, tcpDialOK, tcpPuts, tcpResps)
+//@ func copyTwoWay
+//@   props C06
+//@   trusted
+//@   modifies anybut(tcpDials, tcpDialOK, tcpPuts, tcpResps)
+//@ func (*h3sHandler).handleTCPRequest
+//@   props C01 C06
+//@   nonil
+//@   requires h.authenticated && stream != nil
+//@   modifies any
 
 // ---------------------------------------------------------------------------
 // C15 (server side): online is reported once per accepted authentication
